@@ -249,6 +249,12 @@ def run(prop, tier):
                 rels, hs = histories(spec, cat, gold, model, tier)
                 for (hname, hist, flags) in hs:
                     jobs.append((ci, spec, model, hname, hist, flags, rels))
+                    # the same trace with every model forced on, and with the breakdown view on top of that (every fourth configuration)
+                    if ci % 4:
+                        continue
+                    jobs.append((ci, spec, model, hname + " -a", hist, tuple(flags) + ("-a",), rels))
+                    if "-b" not in flags:
+                        jobs.append((ci, spec, model, hname + " -a -b", hist, tuple(flags) + ("-a", "-b"), rels))
                 # not from the initial state: the directory already holds the output of an emulation of a longer trace
                 longest = max(hs, key=lambda h: len(h[1]))
                 if len(longest[1]) > len(hs[0][1]):
@@ -310,7 +316,7 @@ def run(prop, tier):
         ctx.sample({"config": configs(tier)[-1], "model": "nosv", "history": "tasks"})
         ctx.cov["rule"] = ("looms 1-2 (thorough 1-3) x processes 1-2 (1-3) x threads 1-2 x CPUs 1-2 (1-3) x rank on/off (rank order reversed w.r.t. name order, physical ids "
                            "reversed w.r.t. indices) x 8 models x {plain, every enter/leave pair on all threads, nesting, tasks with shared and private "
-                           "type labels per process, breakdown (-b), flush, affinity; the plain history again in a directory that holds the output of an emulation of the longest one}; plus the row-order family: 2 looms x 2 processes with every assignment of "
+                           "type labels per process, breakdown (-b), flush, affinity, each also with -a and -a -b; the plain history again in a directory that holds the output of an emulation of the longest one}; plus the row-order family: 2 looms x 2 processes with every assignment of "
                            "ranks 0-3 (or none) and PIDs whose string and numeric orders differ; every accepted trace's .prv/.pcf/.row validated")
         ctx.cov["distinct_nontrivial"] = nacc
         ctx.assumptions += ["histories are materialised by lib/obs.py and run through the real ovniemu binary built from the tree"]
